@@ -1,9 +1,11 @@
 import json,sys
 pid=sys.argv[1]
+root=sys.argv[2] if len(sys.argv)>2 else '/tmp/seed'
+avoid=sys.argv[3] if len(sys.argv)>3 else ''
 for l in open('/verif/properties.jsonl'):
     p=json.loads(l)
     if p['id']==pid: break
-print(f"""You are helping test a verification effort for the Go library twmb/franz-go (a Kafka client). Your job: write a realistic BUG. You have your own scratch git worktree of the library at /tmp/seed/wt-{pid} (work only there and in /tmp/seed/out-{pid}; never touch /repo or /verif, and do not read /verif).
+print(f"""You are helping test a verification effort for the Go library twmb/franz-go (a Kafka client). Your job: write a realistic BUG. You have your own scratch git worktree of the library at {root}/wt-{pid} (work only there and in {root}/out-{pid}; never touch /repo or /verif, and do not read anything under /verif except running the script /verif/tools/run_baseline.sh).
 
 The property the bug must break:
 
@@ -11,20 +13,20 @@ The property the bug must break:
   Statement: {p['statement']}
   Scope: {p['quantifier']['text']}
 
-Task: produce TWO different, independent source changes (call them A and B) to the library under /tmp/seed/wt-{pid} (non-test .go files only) such that each, on its own:
+Task: produce TWO different, independent source changes (call them A and B) to the library under {root}/wt-{pid} (non-test .go files only) such that each, on its own:
   1. still compiles (`go build ./...` and `go vet`-free is not required, just compile, in every module you touch);
-  2. still passes the project's pinned test-suite: run `/tmp/seedtools/run_baseline.sh /tmp/seed/wt-{pid}` (about 30 s; exit 0 and "not passing: 0" means OK). Do not edit or add *_test.go files in the patch;
+  2. still passes the project's pinned test-suite: run `/verif/tools/run_baseline.sh {root}/wt-{pid}` (about 30 s; exit 0 and "not passing: 0" means OK). Do not edit or add *_test.go files in the patch;
   3. genuinely breaks the property above in the real code (the behaviour is wrong, not merely different-looking);
   4. needs something SPECIFIC to manifest: a particular interleaving, a fault/crash at a particular point, a multi-step sequence of operations, an unusual input, a particular configuration, or two cooperating sites that each look fine alone. Do NOT make changes that ordinary use would expose at once (e.g. every produce failing). Think of the kind of subtle regression a maintainer could plausibly introduce in a refactor or "optimisation" and that code review could miss. Small diffs (1-15 lines) are best. A and B should be in different functions / break different aspects of the property.
   5. comes with a demonstration: a Go test or small Go program that FAILS (or prints a clear failure / panics) with the change and PASSES without it. It may drive the code however it likes (unit-level calls into unexported functions from a _test.go file placed in the package directory, or an end-to-end program against the in-process fake cluster pkg/kfake, or a hand-rolled fake broker). Keep the demonstration deterministic if at all possible (if it needs a race, make it win reliably with retries/hooks and say how often it fails).
 
 Environment facts (no network; everything needed is on disk):
-  - The repository is multi-module: the root module (pkg/kgo, pkg/kbin, pkg/kerr, pkg/kversion), pkg/kmsg, pkg/kfake, pkg/kadm, pkg/sr, plugin/kotel each have their own go.mod. In /tmp/seed/wt-{pid}, plain `go build ./... ` / `go test` work inside each module directory (Go auto-selects a cached 1.25 toolchain); always set GOFLAGS=-mod=mod GOPROXY=off (do NOT set GOSUMDB=off inside the worktree: it blocks the automatic toolchain switch).
-  - IMPORTANT: pkg/kfake, pkg/kadm and plugin/kotel depend on the *published* github.com/twmb/franz-go v1.21.1 from the module cache, NOT on the worktree's pkg/kgo. So a test inside pkg/kfake does not exercise your modified pkg/kgo. To drive the modified client against kfake, create a small separate module (e.g. /tmp/seed/out-{pid}/demoA/) whose go.mod has `replace github.com/twmb/franz-go => /tmp/seed/wt-{pid}`, `replace github.com/twmb/franz-go/pkg/kfake => /tmp/seed/wt-{pid}/pkg/kfake` and `replace github.com/twmb/franz-go/pkg/kmsg => /tmp/seed/wt-{pid}/pkg/kmsg` as needed, copy /tmp/seed/wt-{pid}/go.sum and pkg/kfake/go.sum contents into its go.sum, and build with GOFLAGS=-mod=mod GOPROXY=off. Alternatively put an internal _test.go file into the package directory just for the demonstration (it is not part of the patch).
-  - Many existing tests under pkg/kgo need a real Kafka broker and are NOT part of the pinned suite; ignore their failures. Only /tmp/seedtools/run_baseline.sh decides.
+  - The repository is multi-module: the root module (pkg/kgo, pkg/kbin, pkg/kerr, pkg/kversion), pkg/kmsg, pkg/kfake, pkg/kadm, pkg/sr, plugin/kotel each have their own go.mod. In {root}/wt-{pid}, plain `go build ./... ` / `go test` work inside each module directory (Go auto-selects a cached 1.25 toolchain); always set GOFLAGS=-mod=mod GOPROXY=off (do NOT set GOSUMDB=off inside the worktree: it blocks the automatic toolchain switch).
+  - IMPORTANT: pkg/kfake, pkg/kadm and plugin/kotel depend on the *published* github.com/twmb/franz-go v1.21.1 from the module cache, NOT on the worktree's pkg/kgo. So a test inside pkg/kfake does not exercise your modified pkg/kgo. To drive the modified client against kfake, create a small separate module (e.g. {root}/out-{pid}/demoA/) whose go.mod has `replace github.com/twmb/franz-go => {root}/wt-{pid}`, `replace github.com/twmb/franz-go/pkg/kfake => {root}/wt-{pid}/pkg/kfake` and `replace github.com/twmb/franz-go/pkg/kmsg => {root}/wt-{pid}/pkg/kmsg` as needed, copy {root}/wt-{pid}/go.sum and pkg/kfake/go.sum contents into its go.sum, and build with GOFLAGS=-mod=mod GOPROXY=off. Alternatively put an internal _test.go file into the package directory just for the demonstration (it is not part of the patch).
+  - Many existing tests under pkg/kgo need a real Kafka broker and are NOT part of the pinned suite; ignore their failures. Only /verif/tools/run_baseline.sh decides.
 
-Deliverables, written under /tmp/seed/out-{pid}/ :
-  - A/patch.diff and B/patch.diff : `git -C /tmp/seed/wt-{pid} diff` of ONLY the library change (non-test files), each relative to the clean checkout (reset the worktree with `git -C /tmp/seed/wt-{pid} checkout -- . && git -C /tmp/seed/wt-{pid} clean -fdq` between A and B).
+Deliverables, written under {root}/out-{pid}/ :
+  - A/patch.diff and B/patch.diff : `git -C {root}/wt-{pid} diff` of ONLY the library change (non-test files), each relative to the clean checkout (reset the worktree with `git -C {root}/wt-{pid} checkout -- . && git -C {root}/wt-{pid} clean -fdq` between A and B).
   - A/demo/ and B/demo/ : the demonstration files plus a `run.sh` that takes the worktree path as $1, runs the demonstration against whatever source is currently in that worktree, and exits non-zero when the bug manifests (zero on the clean tree). If the demonstration is a _test.go to be dropped into a package dir, run.sh must copy it in, run it, and remove it again.
   - A/notes.md and B/notes.md : what was changed, why it breaks the property, what specific condition is needed to manifest, and the exact commands you ran with their observed results on the changed tree and on the clean tree (baseline script result included).
-Leave the worktree clean (no modifications, no stray files) when you finish. Be honest: if you could only get one good change, deliver one and say so. Finish with a short summary of A and B.""")
+{('Earlier rounds already produced changes in these functions; choose DIFFERENT functions and a different aspect of the property: ' + avoid + '. ') if avoid else ''}Leave the worktree clean (no modifications, no stray files) when you finish. Be honest: if you could only get one good change, deliver one and say so. Finish with a short summary of A and B.""")
